@@ -627,14 +627,34 @@ def emptiness_atoms(sc, cls, fn):
     return out
 
 
+def horizon_condition(loop):
+    """the condition under which the run loop stops: the test of the `if ...: ...; return` statement, or the disjunction of the
+    tests of an if / elif chain all of whose branches end the run"""
+    stops = [s for s in loop.body if isinstance(s, ast.If) and any(isinstance(x, ast.Return) for x in walk_shallow(s))]
+    if len(stops) != 1:
+        raise AnalysisError('anchor vanished: _run loop has no single `if <horizon>: ... return` statement')
+    tests = []
+    cur = stops[0]
+    while True:
+        if not (cur.body and isinstance(cur.body[-1], ast.Return)):
+            raise AnalysisError('anchor vanished: a branch of the horizon test in _run does not end the run')
+        tests.append(cur.test)
+        if not cur.orelse:
+            break
+        if len(cur.orelse) == 1 and isinstance(cur.orelse[0], ast.If):
+            cur = cur.orelse[0]
+            continue
+        raise AnalysisError('anchor vanished: the horizon test in _run has an else branch that continues the loop')
+    if len(tests) == 1:
+        return tests[0]
+    return ast.copy_location(ast.BoolOp(op=ast.Or(), values=tests), stops[0])
+
+
 def r31_horizon(ctx, sc: SimCtx):
     prog = ctx.prog
     ctx.rule('R3.1', 'horizon test of _run: stop <=> list empty or next time > bound or (next time == bound and not including), over all 12 cases; bound/including written per command')
     dc, fn, loop = find_run_loop(sc)
-    stops = [s for s in loop.body if isinstance(s, ast.If) and any(isinstance(x, ast.Return) for x in walk_shallow(s)) and not s.orelse]
-    if len(stops) != 1:
-        raise AnalysisError('anchor vanished: _run loop has no single `if <horizon>: ... return` statement')
-    cond = stops[0].test
+    cond = horizon_condition(loop)
     tnames = next_time_atoms(sc, dc.name, fn)
     empt = emptiness_atoms(sc, dc.name, fn)
     if not tnames:
